@@ -4,14 +4,16 @@
 # (everything that matters is under internal/), nothing is written to /repo.
 set -euo pipefail
 export GOFLAGS=-mod=mod GOPROXY=off GOSUMDB=off GOTOOLCHAIN=local
-export GOCACHE=${VERIF_GOCACHE:-/verif/build/gocache}
+export GOCACHE=${VERIF_GOCACHE:-${VERIF_HOME:-/verif}/build/gocache}
 REPO=${VERIF_REPO:-/repo}
-B=/verif/build
+V=${VERIF_HOME:-/verif}
+B=$V/build
 mkdir -p "$B"
-python3 - "$REPO" <<'PY'
+python3 - "$REPO" "$V" <<'PY'
 import json,os,sys
 repo=sys.argv[1]
-H='/verif/harness'
+V=sys.argv[2]
+H=V+'/harness'
 rep={}
 for pkg in ['project','ksim','storex','pgemu','frontx','routex','pollx','queuex','procx']:
     d=os.path.join(H,pkg)
@@ -28,7 +30,7 @@ acc={'sender_access.go':'internal/app/subsystems/aio/sender/zz_verif_access.go',
 for f,t in acc.items():
     p=os.path.join(H,'access',f)
     if os.path.exists(p): rep[f'{repo}/{t}']=p
-json.dump({'Replace':rep},open('/verif/build/overlay.json','w'),indent=1)
+json.dump({'Replace':rep},open(V+'/build/overlay.json','w'),indent=1)
 PY
 cd "$REPO"
 for t in "$@"; do
